@@ -78,6 +78,8 @@ func checkCase(c *Case, count bool) error {
 			r.Routes = append(r.Routes, s)
 		}
 	}
+	var mixed []rt.Req
+	defer func() { _ = mixed }()
 	for _, q := range c.Reqs {
 		pats := r.Patterns(q.Method)
 		host := ref.StripHost(q.Host)
@@ -102,6 +104,7 @@ func checkCase(c *Case, count bool) error {
 		if served != 1 {
 			continue // judged by C01/C08, not here
 		}
+		mixed = append(mixed, q)
 		fn := func() { f.ServeHTTP(w, req) }
 		min := ^uint64(0)
 		for attempt := 0; attempt < 3; attempt++ {
@@ -171,6 +174,55 @@ func checkCase(c *Case, count bool) error {
 		}
 		rtx.Abort()
 	}
+	// mixed traffic: the judged requests of the case one after the other, as a server sees them - methods, hosts and routes
+	// alternate from one request to the next
+	verbs := map[string]bool{}
+	for _, q := range mixed {
+		verbs[q.Method] = true
+	}
+	if len(mixed) >= 2 {
+		w := &rt.NopWriter{H: http.Header{}}
+		reqs := make([]*http.Request, len(mixed))
+		for i, q := range mixed {
+			reqs[i] = rt.NewRequest(q)
+		}
+		for _, ep := range []struct {
+			name string
+			fn   func()
+		}{
+			{"ServeHTTP", func() {
+				for _, req := range reqs {
+					f.ServeHTTP(w, req)
+				}
+			}},
+			{"Router.Reverse", func() {
+				for _, q := range mixed {
+					f.Reverse(q.Method, q.Host, q.Path)
+				}
+			}},
+		} {
+			for i := 0; i < 3; i++ {
+				ep.fn()
+			}
+			min := ^uint64(0)
+			for attempt := 0; attempt < 3 && min != 0; attempt++ {
+				if d := measure(ep.fn); d < min {
+					min = d
+				}
+			}
+			if count {
+				stats.Eval()
+				stats.Class("mixed-traffic:" + ep.name)
+				if len(verbs) >= 2 {
+					stats.Class("mixed-traffic:requests-of-several-methods-alternating")
+				}
+			}
+			if min >= runs {
+				return fmt.Errorf("options %+v routes=%v: %s for the requests %+v one after the other, each of which is served by a matching route without allocating when repeated on its own: %d heap allocations in %d rounds in each of 3 measurements (after warm-up, GC off)",
+					c.G, r.Routes, ep.name, mixed, min, runs)
+			}
+		}
+	}
 	return nil
 }
 
@@ -234,7 +286,7 @@ func TestAllocs(t *testing.T) {
 		for i := 0; i < nr; i++ {
 			p := gen.Pattern(t, pool, hostW, false)
 			pool = append(pool, p)
-			c.Routes = append(c.Routes, rt.RouteSpec{Method: gen.Pick(t, []string{"GET", "GET", "GET", "FOO"}, "method"), Pattern: p, TS: gen.Pick(t, []int{0, 0, rt.TSIgnore}, "ts")})
+			c.Routes = append(c.Routes, rt.RouteSpec{Method: gen.Pick(t, []string{"GET", "GET", "GET", "FOO", "BAR"}, "method"), Pattern: p, TS: gen.Pick(t, []int{0, 0, rt.TSIgnore}, "ts")})
 		}
 		// a deep parametric route forces many params / backtracking
 		if gen.Chance(t, 1, 4, "deep") {
@@ -271,7 +323,18 @@ func TestAllocs(t *testing.T) {
 			c.Routes = append(c.Routes, rt.RouteSpec{Method: "GET", Pattern: "/m" + sb.String()}, rt.RouteSpec{Method: "GET", Pattern: "/m" + sb.String() + "/"})
 			stats.Class(fmt.Sprintf("shape:many-params-%d", np))
 		}
-		for i := 0; i < 4; i++ {
+		nreq := 4
+		if gen.Chance(t, 1, 6, "verbs") {
+			// the same and different patterns under several uncommon verbs, a request for each
+			for i, m := range []string{"FOO", "BAR", "PATCH", "HEAD"}[:gen.IntR(t, 2, 4, "nverbs")] {
+				p := gen.Pick(t, []string{"/v/{p}", "/v/s", "/v/*{c}", fmt.Sprintf("/v%d/{p}", i)}, "vpat")
+				c.Routes = append(c.Routes, rt.RouteSpec{Method: m, Pattern: p})
+				c.Reqs = append(c.Reqs, rt.Req{Method: m, Path: strings.NewReplacer("{p}", "x", "*{c}", "a/b").Replace(p)})
+			}
+			nreq = 2
+			stats.Class("shape:several-uncommon-verbs")
+		}
+		for i := 0; i < nreq; i++ {
 			src := gen.Pick(t, c.Routes, "src")
 			if !ref.ValidPattern(src.Pattern, 1<<16, 1<<16) {
 				continue
